@@ -23,8 +23,8 @@ INFO = {
     'functions': ['FlowCal.gate.density2d'],
     'bounds': {'quick': {'mapping': 'N=2 events, 2x3 grid, 11 position classes per event, '
                          'fraction from a table', 'cut': 'N=2 events, 2x2 grid, real densities '
-                         'and fraction'},
-               'thorough': {'cut': 'N=3'}},
+                         'and fraction; two of five smoothing-width forms per assignment job'},
+               'thorough': {'cut': 'N=3, all five smoothing-width forms per job'}},
     'outside': ['FP rounding of f*n before ceil', 'contour geometry (skimage)', 'sample-derived '
                 'bins (C19)', 'grids larger than 2x3', 'smoothing itself (scipy)'],
     'stubs': ['scipy.ndimage gaussian_filter: arbitrary non-negative value per bin, same values '
@@ -371,10 +371,10 @@ def replay_cut(B, I):
 SIGMAS = [0.0, 10.0, (0.0, 2.0), (2.0, 0.0), (1.0, 3.0)]
 
 
-def make_cut(assign, perm):
+def make_cut(assign, perm, sis=(0, 1, 2, 3, 4)):
     def make(env):
         install(env, None)
-        return cond_fn('d2d_cut', [('si', 'int')], body_cut, pre=['0 <= si <= 4'],
+        return cond_fn('d2d_cut', [('si', 'int')], body_cut, pre=['si in %r' % (tuple(sis),)],
                        consts={'N': len(assign), 'assign': list(assign), 'perm': perm})
     return make
 
@@ -461,15 +461,19 @@ def conditions(tier):
     cs.append(Cond('mapping_f2_sample', make=make_mapping(2, True), replay=std_replay(body_mapping),
                    timeout=600, modules=mods, doc='same on a sample with channels by name'))
     N = 2 if q else 3
-    for assign in itertools.product(range(5), repeat=N):
+    for j, assign in enumerate(itertools.product(range(5), repeat=N)):
         if sum(1 for a in assign if a != 4) == 0:
             continue
-        cs.append(Cond('cut_' + ''.join(map(str, assign)), make=make_cut(assign, perm=not q),
+        # quick: two of the five smoothing-width forms per job (each form in ~10 jobs; the width
+        # is only handed through to the filter, so the product with the assignment adds paths,
+        # not coverage); thorough: all five in every job
+        sis = (j % 5, (j + 2) % 5) if q else (0, 1, 2, 3, 4)
+        cs.append(Cond('cut_' + ''.join(map(str, assign)), make=make_cut(assign, not q, sis),
                        replay=std_replay(body_cut), timeout=400 if q else 1200, modules=mods,
                        doc='events in bins %s (4 = outside) of a 2x2 grid, symbolic densities and '
-                           'fraction: atomic bins, outside never kept, kept >= f*n, minimal, '
-                           'density order, f=0/1, re-gating reproduces the mask, short == full'
-                           % (assign,)))
+                           'fraction, smoothing width forms %s: atomic bins, outside never kept, '
+                           'kept >= f*n, minimal, density order, f=0/1, re-gating reproduces the '
+                           'mask, short == full' % (assign, [SIGMAS[i] for i in sis])))
     for assign in ((0, 1), (0, 3), (1, 1), (2, 4)) if q else \
             [a for a in itertools.product(range(5), repeat=2) if a != (4, 4)]:
         cs.append(Cond('monotone_' + ''.join(map(str, assign)), make=make_monotone(assign),
